@@ -40,7 +40,7 @@ RULE = ("scripted introductions: NAT type of requester x of introduced peer (4x4
         "its WAN address, response only (via a fourth node), response then request, request then response} x "
         "NAT port policy {preserving, remapped} x LAN numbering drawn from all three RFC 1918 ranges incl. their edges and "
         "colliding /24s x listening ports {all 8090, distinct} x optional noise walks among candidates; plus random "
-        "histories: 3-6 hosts with random ages, 6-25 random walk/ask ops in either of two overlays, closed by an introduction of two nodes that do not know each other (oracle); plus the classes lan-collision, foreign-entry (known findings), bootstrap (blacklisted introducer), own-machine (introducer behind a box, peer on its machine), capacity (introducer at max_peers), remap-introduced / remap-requester / roam-requester (NAT mapping renewed, node moved to another public ip), churn (introducer with max_peers=-1 drops and re-verifies the peer), stale-estimate and lan-change (known findings 3, 4), port-reuse (a released WAN port of another peer is given to the requester), restart (the requester starts again from its Network snapshot: addresses known without introducer), tracker (the introducer is scripts/tracker_service.py), peer-limit (introduced peer at its overlay's max_peers with more peers in another overlay), strategy (contact attempt by the stock RandomWalk on a virtual clock, incl. its time-out clean-up). distinct = distinct (configuration, op list); non-trivial = at "
+        "histories: 3-6 hosts with random ages, 6-25 random walk/ask ops in either of two overlays, closed by an introduction of two nodes that do not know each other (oracle); plus the classes lan-collision, foreign-entry (known findings), bootstrap (blacklisted introducer), own-machine (introducer behind a box, peer on its machine), capacity (introducer at max_peers), remap-introduced / remap-requester / roam-requester (NAT mapping renewed, node moved to another public ip), churn (introducer with max_peers=-1 drops and re-verifies the peer), stale-estimate and lan-change (known findings 3, 4), port-reuse (a released WAN port of another peer is given to the requester), restart (the requester starts again from its Network snapshot: addresses known without introducer), odd-lan (same-NAT / different-NAT pairs on LANs numbered outside RFC 1918), tracker (the introducer is scripts/tracker_service.py), peer-limit (introduced peer at its overlay's max_peers with more peers in another overlay), strategy (contact attempt by the stock RandomWalk on a virtual clock, incl. its time-out clean-up). distinct = distinct (configuration, op list); non-trivial = at "
         "least one packet was dropped by a NAT filter or delivered over a LAN segment")
 TRUSTED_BASE = [
     "tools/gen_c13.py: AST translation of the address decisions of community.py (assignments, if/elif chains, list appends, tuple/attribute/index expressions); IPv4 only, isinstance(x, UDPv4Address) is translated to true",
@@ -391,7 +391,7 @@ REQUIRED_BRANCHES = [
     "net:drop:unroutable",
     "msg:req0", "msg:req1", "msg:resp0", "msg:resp1", "msg:preq0", "msg:preq1", "msg:punc0", "msg:punc1",
     "op:remap", "op:roam", "op:remove-peer", "op:restart", "op:ask", "op:walk-walkable", "op:walk-junk", "op:set-age",
-    "op:blacklist", "op:walk-self", "class:tracker", "class:peer-limit", "class:strategy", "strategy:steps",
+    "op:blacklist", "op:walk-self", "class:tracker", "class:peer-limit", "class:strategy", "strategy:steps", "class:odd-lan",
 ]
 
 
@@ -759,6 +759,7 @@ def canon(reply: str, expected: str) -> str:
 
 
 # ---------------------------------------------------------------------------------------------------------------------
+ODD_LAN_NETS = ["100.64.0", "100.127.255", "100.100.7", "198.18.5", "25.11.12", "172.32.0", "192.169.1", "11.0.0"]
 LAN_NETS = ["192.168.0", "192.168.1", "192.168.1", "192.168.255", "10.0.0", "10.255.255", "10.77.3", "172.16.0", "172.31.255",
             "172.20.10"]
 EDGE_PUBLIC = ["172.32.0.1", "172.15.255.254", "192.169.0.1", "192.167.255.254", "11.0.0.1", "9.255.255.254", "172.48.1.1",
@@ -848,12 +849,13 @@ def scripted(ctx: Ctx, cfg: dict, use_model: bool, batch: list):
             R = w.add_host(*lay.public_host(), tR)
             P = w.add_host(*lay.public_host(), tP)
         elif pl == "diff":
-            b1 = lay.new_box()
-            b2 = lay.new_box(lay.boxes[b1]["net"] if cfg.get("collide") else None)
+            b1 = lay.new_box(rng.choice(ODD_LAN_NETS) if klass == "odd-lan" else None)
+            b2 = lay.new_box(lay.boxes[b1]["net"] if cfg.get("collide") else
+                             (rng.choice(ODD_LAN_NETS) if klass == "odd-lan" else None))
             R = w.add_host(*lay.boxed_host(b1), tR)
             P = w.add_host(*lay.boxed_host(b2), tP)
         elif pl == "same":
-            b1 = lay.new_box()
+            b1 = lay.new_box(rng.choice(ODD_LAN_NETS) if klass == "odd-lan" else None)
             R = w.add_host(*lay.boxed_host(b1), tR)
             P = w.add_host(*lay.boxed_host(b1), tP)
         elif pl == "rPub":
@@ -1483,6 +1485,7 @@ CLASSES = {
     "lan-change": (["diff", "pPub"], ("old", "new")),  # known finding 4: P moves into R's LAN, my_estimated_lan is cached
     "port-reuse": (["diff", "same", "pPub"], ("old", "new")),   # a released WAN port of another peer is given to the requester
     "restart": (["diff", "same", "public"], ("old", "new")),
+    "odd-lan": (["same", "diff"], ("old", "new")),     # LAN numbered outside RFC 1918 (carrier-grade NAT, other address space)
     "tracker": (PLACEMENTS, ("old",)),                 # the introducer is scripts/tracker_service.py (answers under the requester's prefix)
     "peer-limit": (["diff", "same"], ("old", "new")),  # introduced peer at max_peers in this overlay, more peers in the other
     "strategy": (["diff", "same", "rPub"], ("old", "new")),   # contact attempt by the stock RandomWalk incl. its time-outs           # requester restarts from its snapshot (addresses without introducer)
@@ -1532,7 +1535,7 @@ def run(ctx: Ctx):
                         ctx.count("exhaustive-scope")
                         if len(batch) >= 200:
                             flush(ctx, batch)
-    for _ in range(ctx.scale(150, 2500)):
+    for _ in range(ctx.scale(60, 2000)):
         random_history(ctx, ctx.rng.randrange(1 << 30), use_model, batch)
         if len(batch) >= 200:
             flush(ctx, batch)
